@@ -353,7 +353,7 @@ func checkRT(prop, tier string) int {
 	scratch := newScratch()
 	defer cleanupScratch()
 	b := prepareRT(scratch)
-	quickRuns := map[string]int{"C09": 40000, "C10": 40000, "C14": 40000, "C20": 6000}[prop]
+	quickRuns := map[string]int{"C09": 240000, "C10": 240000, "C14": 240000, "C20": 48000}[prop]
 	budget := 100.0
 	maxRuns := envInt("VERIF_RT_RUNS", quickRuns)
 	if tier == "thorough" {
